@@ -10,6 +10,9 @@ TEXT = {
  "C01": ("Bounded-exhaustive: every registered instruction (by name) on every operand tuple of the boundary alphabets, every operand-missing pattern, empty and populated states, in an overflow-checking and a release build, inside supervised worker processes; see evidence for the families that ran.",
          "Trusted: the alphabets; worker supervision (RLIMIT_AS, breadcrumb attribution). Values outside the alphabets, programs beyond the bounds are not covered.",
          "bounded exhaustive enumeration of single steps / BFS over the real interpreter transition function, no-crash invariant"),
+ "C02": ("Every program of a control alphabet x every limit configuration run by the real run loop under a virtual clock; outcome and final state must be among the admissible (outcome, steps) pairs derived from an independent single-step accounting.",
+         "Trusted: the admissible-set construction in harness/src/c02.rs; the virtual clock hook.",
+         "exhaustive enumeration of programs x configurations with scripted clock answers; differential against repeated single steps"),
  "C03": ("Every token sequence up to K over a 26-token alphabet and every character string up to L over an 11-character alphabet parsed by the real parser in two build profiles; balanced inputs compared with an independent recursive-descent reference; all other stacks must be untouched.",
          "Trusted: the reference parser in harness/src/c03.rs; alphabets.",
          "exhaustive enumeration of all strings up to a length bound against a reference parser"),
